@@ -29,8 +29,15 @@ def removal_fns(prog):
         tree_fns = [f for f in prog.fns.values() if f.self_adt == tree and not f.is_closure]
         sel = select_removal(prog, tree, r, tree_fns)
         if len(sel['removal']) == 1 and not sel['bad']:
-            # the removal transaction as POOL identifies it (release calls may sit in pass-through helpers)
+            # the removal transaction as POOL identifies it (release calls may sit in pass-through helpers), and the private
+            # functions around it that also release exactly one slot on every path (a removal split into an outer part that
+            # moves the payload and an inner part that unlinks and releases)
             out[sel['removal'][0].path] = sel['removal'][0]
+            by_path = {f.path: f for f in tree_fns}
+            for pth in sorted(set(sel['T0']) - set(sel['W'])):
+                g = by_path.get(pth)
+                if g is not None and not g.trait_item:
+                    out[pth] = g
             continue
         for f in tree_fns:
             if f.trait_method() != 'clear' and calls_to(prog, f, r['release']):
@@ -50,9 +57,26 @@ def may_remove(prog, fn, removals, _stack=None):
     _stack = _stack | {fn.path}
     out = set()
     if fn.path in removals:
-        # the removal removes its index parameter
+        # the removal removes its index parameter: the parameter(s) that can reach the slot it releases (a removal split
+        # into helpers passes parent / child links along as well; those are not removed)
+        from rules.pool import pool_roles, tree_pool
+        from ssa import walk
+        released = set()
+        try:
+            pool, _ = tree_pool(prog, fn.self_adt)
+            r = pool_roles(prog).get(pool)
+        except Exception:
+            r = None
+        if r:
+            for c in fn.body.calls:
+                tgt = prog.resolve(c)
+                if tgt is not None and (tgt in r['release'] or tgt.self_adt == fn.self_adt) and len(c.args) >= 2:
+                    if tgt in r['release']:
+                        for x in walk(c.args[1]):
+                            if x.kind == 'param':
+                                released.add(x.args[0])
         for k in range(2, fn.body.arg_count + 1):
-            if fn.body.locals[k]['ty'] == 'u32':
+            if fn.body.locals[k]['ty'] == 'u32' and (not released or k in released):
                 out.add(('param', k))
     else:
         for call in fn.body.calls:
@@ -75,13 +99,37 @@ def lift(prog, fn, atom, call):
         if k - 1 >= len(call.args):
             return {('any',)}
         res = set()
-        for a in origins(prog, fn, call.args[k - 1]):
+        ats = origins(prog, fn, call.args[k - 1])
+        direct = {a[1] for a in ats if a[0] == 'param'}
+
+        def root_param(base, depth=0):
+            """the parameter a chain of links / helper results starts from, if any"""
+            if depth > 6 or not hasattr(base, 'kind'):
+                return None
+            b0 = strip(base)
+            if b0.kind == 'param':
+                return b0.args[0]
+            sub = origins(prog, fn, b0)
+            roots = set()
+            for x in sub:
+                if x[0] == 'param':
+                    roots.add(x[1])
+                elif x[0] == 'link':
+                    roots.add(root_param(x[1], depth + 1))
+                else:
+                    roots.add(None)
+            return roots.pop() if len(roots) == 1 else None
+        for a in ats:
             if a[0] == 'param':
                 res.add(a)
             elif a[0] == 'root':
                 res.add(('root',))
-            elif a[0] == 'link' and hasattr(a[1], 'kind') and strip(a[1]).kind == 'param' and a[2] in ('left', 'right'):
+            elif a[0] == 'link' and hasattr(a[1], 'kind') and strip(a[1]).kind == 'param' and a[2] in ('left', 'right') and strip(a[1]).args[0] not in direct:
                 res.add(('link', ('param', strip(a[1]).args[0]), a[2]))
+            elif a[0] == 'link' and root_param(a[1]) in direct:
+                continue        # a node below a parameter that is itself among the removed ones (the in-order successor)
+            elif a[0] == 'link' and root_param(a[1]) is None and direct and any(x[0] == 'link' and root_param(x[1]) in direct for x in ats):
+                continue        # further steps of the same walk (a helper's loop summarised): still below that parameter
             elif a[0] == 'const':
                 continue
             else:
